@@ -40,16 +40,26 @@ def goenv():
     return e
 
 
-def build_driver():
-    """(Re)build the Go driver against /repo's current working tree with the verif tag."""
+def build_driver(outdir=None):
+    """(Re)build the Go driver against the repository's current working tree with the verif tag.  The binary goes into the
+    calling check's own scratch directory, so that checks running at the same time never replace each other's driver.
+    With VERIF_REPO set (used by bin/seedtest for a scratch worktree) the harness module is copied and its replace directive
+    re-pointed, so that /repo itself is never touched."""
     os.makedirs(BUILD, exist_ok=True)
+    outdir = outdir or BUILD
     lock = open(os.path.join(BUILD, ".lock"), "w")
     fcntl.flock(lock, fcntl.LOCK_EX)
     try:
-        shutil.copyfile(os.path.join(REPO_GO, "go.sum"), os.path.join(HARNESS, "go.sum"))
-        out = os.path.join(BUILD, "verifdrv")
+        harness = HARNESS
+        if REPO != "/repo":
+            harness = os.path.join(outdir, "harness")
+            shutil.copytree(HARNESS, harness, dirs_exist_ok=True)
+            subprocess.run(["go", "mod", "edit", "-replace", "github.com/wormhole-foundation/example-near-light-client=" + REPO_GO],
+                           cwd=harness, env=goenv(), check=True)
+        shutil.copyfile(os.path.join(REPO_GO, "go.sum"), os.path.join(harness, "go.sum"))
+        out = os.path.join(outdir, "verifdrv")
         t0 = time.time()
-        p = subprocess.run(["go", "build", "-tags", "verif", "-o", out, "./cmd/verifdrv"], cwd=HARNESS,
+        p = subprocess.run(["go", "build", "-tags", "verif", "-o", out, "./cmd/verifdrv"], cwd=harness,
                            env=goenv(), stdout=subprocess.PIPE, stderr=subprocess.STDOUT, text=True)
         if p.returncode != 0:
             # The repository (or the harness against it) does not build: machinery failure, not a violation.
@@ -88,7 +98,7 @@ class Ctx:
     # ---- tools ------------------------------------------------------------------------------------
     def driver(self):
         if self.drv is None:
-            self.drv, dt = build_driver()
+            self.drv, dt = build_driver(self.scratch("build"))
             self.notes.append("driver rebuilt from %s in %.1fs" % (REPO_GO, dt))
         return self.drv
 
